@@ -370,6 +370,67 @@ def isSizedTag (t : UInt8) : Bool :=
   t = binCompiledFunctionV1 || t = binArrayV1 || t = binBytesV1 || t = binStringV1 || t = binMapV1 ||
   t = binSyncMapV1 || t = binFunctionV1 || t = binBuiltinFunctionV1
 
+/-- `DecodeObject`, tags Int/Uint/Float/Char: one size byte, `size` payload bytes, then the
+    type's `UnmarshalBinary` on the re-assembled buffer -/
+def decodeNum (btype : UInt8) (r : Bytes) : DM (Obj × Bytes) := do
+  let (size, r) ← (readByte r : Res _)
+  DM.tick (2 + size.toNat)           -- make([]byte, 2+int(size))
+  let (payload, r) ← (if size.toNat > 0 then readFull size.toNat r else .ok ([], r) : Res _)
+  let buf := btype :: size :: payload
+  if btype = binIntV1 then do let v ← (unmarshalInt buf : Res _); pure (.int v, r)
+  else if btype = binUintV1 then do let v ← (unmarshalUint buf : Res _); pure (.uint v, r)
+  else if btype = binFloatV1 then do let v ← (unmarshalFloat buf : Res _); pure (.float v, r)
+  else do let v ← (unmarshalChar buf : Res _); pure (.char v, r)
+
+/-- dispatch of `DecodeObject` on the size-prefixed tags, given the re-assembled buffer
+    `buf = btype :: rb ++ payload` (`rb` = the size prefix as read) -/
+def decodeSizedBuf (C : Ctx) (cfLoop : Bytes → CF → DM CF) (arrLoop : Bytes → DM (List Obj))
+    (mapLoop : Bytes → DM (List (Bytes × Obj))) (btype : UInt8) (rb payload : Bytes) : DM Obj :=
+  let buf := btype :: rb ++ payload
+  if btype = binCompiledFunctionV1 then do
+    let f ← unmarshalCF cfLoop buf; pure (.compiledFunction f)
+  else if btype = binArrayV1 then do
+    let xs ← unmarshalArray arrLoop buf; pure (.array xs)
+  else if btype = binBytesV1 then do let s ← (unmarshalBytes buf : Res _); pure (.bytes s)
+  else if btype = binStringV1 then do let s ← (unmarshalString buf : Res _); pure (.str s)
+  else if btype = binMapV1 then do
+    let m ← unmarshalMap mapLoop buf; pure (.map m)
+  else if btype = binSyncMapV1 then
+    -- (*SyncMap).UnmarshalBinary: data[1] == 0 leaves Value nil; otherwise the buffer is
+    -- re-tagged as a map
+    (match rb with
+     | n :: _ =>
+       if n = 0 then pure (.syncMap true [])
+       else do
+         let m ← unmarshalMap mapLoop (binMapV1 :: rb ++ payload)
+         pure (.syncMap false m)
+     | [] => (fail "invalid ugo.SyncMap data" : Res _))   -- len(data) < 2
+  else if btype = binFunctionV1 then do
+    let s ← (unmarshalFuncName binFunctionV1 "ugo.Function" buf : Res _); pure (.function s)
+  else do
+    let s ← (unmarshalFuncName binBuiltinFunctionV1 "ugo.BuiltinFunction" buf : Res _)
+    if C.isBuiltinFn s then pure (.builtinFunction s)
+    else (fail "builtin not found" : Res _)
+
+/-- `DecodeObject`, size-prefixed tags: read the size prefix and the payload, then dispatch -/
+def decodeSized (C : Ctx) (cfLoop : Bytes → CF → DM CF) (arrLoop : Bytes → DM (List Obj))
+    (mapLoop : Bytes → DM (List (Bytes × Obj))) (btype : UInt8) (r : Bytes) : DM (Obj × Bytes) := do
+  let (value, rb, r) ← (viReadBytes r : Res _)
+  if value < 0 then (fail "negative value" : Res _)
+  else
+    -- bytes.Buffer filled with the tag, the size prefix and io.CopyN(&bb, r, value):
+    -- it grows with the data actually read
+    DM.tick (1 + rb.length + min value.toNat r.length)
+    let (payload, r) ← (if value > 0 then readFull value.toNat r else .ok ([], r) : Res _)
+    let o ← decodeSizedBuf C cfLoop arrLoop mapLoop btype rb payload
+    pure (o, r)
+
+/-- `DecodeObject`, tag 255: the gob fallback -/
+def decodeGob (C : Ctx) (r : Bytes) : DM (Obj × Bytes) :=
+  match C.gobDec r with
+  | some (o, r') => ⟨.ok (o, r'), [C.gobAlloc r], true⟩
+  | none => ⟨fail "gob", [C.gobAlloc r], true⟩
+
 mutual
 /-- `DecodeObject(r)` -/
 def decodeObjectF (C : Ctx) : Nat → Bytes → DM (Obj × Bytes)
@@ -379,52 +440,10 @@ def decodeObjectF (C : Ctx) : Nat → Bytes → DM (Obj × Bytes)
     if btype = binUndefinedV1 then pure (.undefined, r)
     else if btype = binTrueV1 then pure (.bool true, r)
     else if btype = binFalseV1 then pure (.bool false, r)
-    else if isNumTag btype then do
-      let (size, r) ← (readByte r : Res _)
-      DM.tick (2 + size.toNat)           -- make([]byte, 2+int(size))
-      let (payload, r) ← (if size.toNat > 0 then readFull size.toNat r else .ok ([], r) : Res _)
-      let buf := btype :: size :: payload
-      if btype = binIntV1 then do let v ← (unmarshalInt buf : Res _); pure (.int v, r)
-      else if btype = binUintV1 then do let v ← (unmarshalUint buf : Res _); pure (.uint v, r)
-      else if btype = binFloatV1 then do let v ← (unmarshalFloat buf : Res _); pure (.float v, r)
-      else do let v ← (unmarshalChar buf : Res _); pure (.char v, r)
-    else if isSizedTag btype then do
-      let (value, rb, r) ← (viReadBytes r : Res _)
-      if value < 0 then (fail "negative value" : Res _)
-      else
-        -- bytes.Buffer filled with the tag, the size prefix and io.CopyN(&bb, r, value):
-        -- it grows with the data actually read
-        DM.tick (1 + rb.length + min value.toNat r.length)
-        let (payload, r) ← (if value > 0 then readFull value.toNat r else .ok ([], r) : Res _)
-        let buf := btype :: rb ++ payload
-        if btype = binCompiledFunctionV1 then do
-          let f ← unmarshalCF (cfLoopF C fuel) buf; pure (.compiledFunction f, r)
-        else if btype = binArrayV1 then do
-          let xs ← unmarshalArray (arrayLoopF C fuel) buf; pure (.array xs, r)
-        else if btype = binBytesV1 then do let s ← (unmarshalBytes buf : Res _); pure (.bytes s, r)
-        else if btype = binStringV1 then do let s ← (unmarshalString buf : Res _); pure (.str s, r)
-        else if btype = binMapV1 then do
-          let m ← unmarshalMap (mapLoopF C fuel) buf; pure (.map m, r)
-        else if btype = binSyncMapV1 then
-          -- (*SyncMap).UnmarshalBinary: len(data) >= 2 holds; data[1] == 0 leaves Value nil;
-          -- otherwise the buffer is re-tagged as a map
-          (match rb with
-           | n :: _ =>
-             if n = 0 then pure (.syncMap true [], r)
-             else do
-               let m ← unmarshalMap (mapLoopF C fuel) (binMapV1 :: rb ++ payload)
-               pure (.syncMap false m, r)
-           | [] => (fail "invalid ugo.SyncMap data" : Res _))   -- len(data) < 2
-        else if btype = binFunctionV1 then do
-          let s ← (unmarshalFuncName binFunctionV1 "ugo.Function" buf : Res _); pure (.function s, r)
-        else do
-          let s ← (unmarshalFuncName binBuiltinFunctionV1 "ugo.BuiltinFunction" buf : Res _)
-          if C.isBuiltinFn s then pure (.builtinFunction s, r)
-          else (fail "builtin not found" : Res _)
-    else if btype = binUnkownType then
-      match C.gobDec r with
-      | some (o, r') => ⟨.ok (o, r'), [C.gobAlloc r], true⟩
-      | none => ⟨fail "gob", [C.gobAlloc r], true⟩
+    else if isNumTag btype then decodeNum btype r
+    else if isSizedTag btype then
+      decodeSized C (cfLoopF C fuel) (arrayLoopF C fuel) (mapLoopF C fuel) btype r
+    else if btype = binUnkownType then decodeGob C r
     else (fail "decode error: unknown encoding type" : Res _)
 
 /-- element loop of `(*Array).UnmarshalBinary`: `for rd.Len() > 0 { DecodeObject(rd); append }` -/
